@@ -40,6 +40,32 @@ PSpec == PInit /\ [][PNext]_pvars
 RunOver == phase = "solving" /\ ~MoreSolves
 Judged == RunOver \/ phase = "refused" \/ (phase = "solved" /\ opts.bf)
 
+(* Archive traces: result files shipped with the repository under Evaluations/ *)
+(* (written by an older version: scalar student costs, no size line, no loaded  *)
+(* instance, no objective values).                                              *)
+ArchiveLPFails ==
+    (IF WellFormed(inst) THEN {} ELSE {"file_is_well_formed_instance"})
+    \cup (IF T.status = status THEN {} ELSE {"status_iff_feasible"})
+    \cup (IF status = "Optimal" /\ T.status = "Optimal"
+          THEN (IF T.matching \in Feasible(inst, opts.pc, FALSE) THEN {} ELSE {"matching_valid"})
+               \cup (IF opts.stab /\ ~(Len(T.matching) = inst.ns /\ IsAssignment(inst, T.matching) /\ Stable(inst, T.matching))
+                     THEN {"matching_stable"} ELSE {})
+               \cup (IF T.matching \in F THEN {} ELSE {"matching_lexoptimal"})
+               \cup (IF opts.stab /\ T.stabline # "True" THEN {"stability_correct_true"} ELSE {})
+               \cup (IF T.matching \in Feasible(inst, opts.pc, FALSE) /\
+                        ~(LET m == T.matching IN
+                          /\ T.stats.cost = CostS(inst, m) /\ T.stats.cost_sq = SqCostS(inst, m)
+                          /\ T.stats.degree = Degree(inst, m) /\ T.stats.profile = Profile(inst, m)
+                          /\ T.stats.max_lec_abs_diff = MaxDiff(inst, m) /\ T.stats.sum_lec_abs_diff = SumDiff(inst, m))
+                     THEN {"printed_statistics"} ELSE {})
+          ELSE (IF T.matching = <<>> THEN {} ELSE {"no_matching_when_infeasible"}))
+ArchiveBFFails ==
+    IF ~bf.res.feasible \/ ~T.bfres.feasible THEN (IF bf.res.feasible = T.bfres.feasible THEN {} ELSE {"bf_equals_optimum"})
+    ELSE IF /\ T.bfres.size = bf.res.size /\ T.bfres.cost = bf.res.cost[1] /\ T.bfres.deg = bf.res.deg
+            /\ T.bfres.sq = bf.res.sq[1] /\ T.bfres.gen = bf.res.gen /\ T.bfres.gremax = bf.res.gremax
+            /\ T.bfres.gre = bf.res.gre /\ T.bfres.mx = bf.res.mx /\ T.bfres.sm = bf.res.sm
+         THEN {} ELSE {"bf_equals_optimum"}
+
 LPFails ==
     (IF T.loaded = inst THEN {} ELSE {"loaded_equals_file"})
     \cup (IF WellFormed(inst) THEN {} ELSE {"file_is_well_formed_instance"})
@@ -61,6 +87,7 @@ BFFails ==
     \cup (IF T.exception = "" /\ T.bfres # bf.res THEN {"bf_equals_optimum"} ELSE {})
 
 Fails == IF phase = "refused" THEN {"loads_without_error"}
+         ELSE IF T.archive THEN (IF opts.bf THEN ArchiveBFFails ELSE ArchiveLPFails)
          ELSE IF opts.bf THEN BFFails ELSE LPFails
 
 Verdict == Judged => PrintT("VERDICT " \o ToJson([tid |-> tid, fails |-> SetToSeq(Fails),
